@@ -362,6 +362,16 @@ def run(ctx):
     rng = ctx.rng
     from amaranth.lib.crc import catalog
     import amaranth.sim  # noqa: F401  (imported before any fork)
+    from ..common import make_pool
+    pool = make_pool()        # forked before the TLC helper threads start (fork + threads can deadlock the child)
+    try:
+        return _run(ctx, th, rng, catalog, pool)
+    finally:
+        pool.terminate()
+        pool.join()
+
+
+def _run(ctx, th, rng, catalog, pool):
     table = load_table()
     by_name = {e["name"]: e for e in table}
     live_names = sorted(n for n in dir(catalog) if n.startswith("CRC"))
@@ -467,8 +477,8 @@ def run(ctx):
         words = [rng.getrandbits(dw) for _ in range(rng.choice([0, 1, 2, 3, 5, 8]))]
         sw_jobs.append((("custom", p), dw, words))
         sw_meta.append({"stage": "sw", "name": None, "params": p, "dw": dw, "words": words})
-    sw_out = pmap(_sw_job, sw_jobs, chunksize=64)
-    res_out = pmap(_residue_job, [("catalog", n) for n in names], chunksize=16)
+    sw_out = pmap(_sw_job, sw_jobs, chunksize=64, pool=pool)
+    res_out = pmap(_residue_job, [("catalog", n) for n in names], chunksize=16, pool=pool)
 
     def label(meta):
         return ("catalog." + meta["name"]) if meta["name"] else pname(meta["params"])
@@ -574,7 +584,7 @@ def run(ctx):
     order = sorted(range(len(hw_jobs)), key=lambda j: -sim_cost(hw_meta[j]["params"]["crc_width"], hw_meta[j]["dw"]))
     hw_jobs = [hw_jobs[j] for j in order]
     hw_meta = [hw_meta[j] for j in order]
-    hw_out = pmap(_hw_job, hw_jobs, chunksize=1)
+    hw_out = pmap(_hw_job, hw_jobs, chunksize=1, pool=pool)
     hw_traces, hw_keep = [], []
     for meta, out in zip(hw_meta, hw_out):
         key = {"stage": "hw", "name": meta["name"], "params": pname(meta["params"]), "dw": meta["dw"]}
@@ -651,7 +661,7 @@ def run(ctx):
         if not cases:
             raise MachineryError("generator printed nothing for %r" % (b,))
         n_cases += len(cases)
-        for n, bad in pmap(_small_job, chunks(cases, max(1, len(cases) // 64)), chunksize=1):
+        for n, bad in pmap(_small_job, chunks(cases, max(1, len(cases) // 64)), chunksize=1, pool=pool):
             n_eval += n
             for (params, dw, words, exp, got) in bad:
                 key = {"stage": "small", "params": pname(params), "dw": dw, "words": words}
